@@ -34,6 +34,18 @@ package priority
 //@ ghost var gGraceful bool
 //@ ghost var gCompleted bool
 
+// C06: the two blocking waits for a release happen only when a release can come.
+//@ event recv dsc.opts.Feedback (p) in (*Discipline).getOneFeedback
+//@   requires [C06] never-waits-for-a-release-that-cannot-come: gInfl > 0
+//@   assume-env [*] release-only-for-delivered-items: gInflP[p] > 0
+//@   effect gInfl := gInfl - 1
+//@   effect gInflP := store(gInflP, p, gInflP[p] - 1)
+//@ event recv dsc.opts.Feedback (p) in (*Discipline).waitZeroActual
+//@   requires [C06] never-waits-for-a-release-that-cannot-come: gInfl > 0
+//@   assume-env [*] release-only-for-delivered-items: gInflP[p] > 0
+//@   effect gInfl := gInfl - 1
+//@   effect gInflP := store(gInflP, p, gInflP[p] - 1)
+
 // A release is sent once per delivered item and only for delivered items (DESIGN.md §6.5).
 //@ event recv dsc.opts.Feedback (p)
 //@   assume-env [*] release-only-for-delivered-items: gInflP[p] > 0
@@ -103,6 +115,8 @@ package priority
 //@   modifies content(distribution), gDivErr
 //@   ensures [*] returns-the-map-it-was-given: distribution != nil ==> result == distribution
 //@   ensures [*] or-a-new-one: distribution == nil ==> (result == nil || fresh(result))
+//@   ensures [C06] sum-rule-presupposed-by-the-property: msum(result) == old(msum(distribution)) + ite(len(priorities) > 0, dividend, 0)
+//@   ensures [C06] frame-rule-presupposed-by-the-property: forall k :: !in(pset(priorities, len(priorities)), k) ==> (result[k] == old(distribution[k]) && (dom(result, k) <==> old(dom(distribution, k))))
 //@   ensures [C02 C07 C15] (distribution != nil) ==> (gDivErr <==> (old(gDivErr) || (msum(distribution) != old(msum(distribution)) && msum(distribution) - old(msum(distribution)) != dividend)))
 //@   ensures [C02 C07 C15] (distribution == nil) ==> (gDivErr == old(gDivErr))
 //@   ensures [* C01 C15] unchecked-divisions-obey-the-sum-rule: distribution == nil ==> (msum(result) == 0 || msum(result) == dividend)
@@ -119,6 +133,8 @@ package priority
 //@   [* C01] forall k :: dsc.actual[k] == gInflP[k]
 //@   [* C01] msum(dsc.actual) == gInfl && gInfl <= gH
 //@   [* C01] msum(dsc.strategic) <= gH
+//@   [C06] shares-sum-to-handlers-quantity: msum(dsc.strategic) == ite(len(dsc.priorities) > 0, gH, 0)
+//@   [C06] forall k :: dom(dsc.strategic, k) ==> in(pset(dsc.priorities, len(dsc.priorities)), k)
 
 // The round invariant: what is in flight plus what is planned never exceeds the capacity.
 //@ pred RINV(dsc)
@@ -169,8 +185,10 @@ package priority
 //@   requires [*] WF(dsc)
 //@   modifies content(dsc.tactic)
 //@   ensures [* C01] result ==> msum(dsc.tactic) == vacants
+//@   ensures [C06] nothing-in-flight-means-the-shares-are-picked: (msum(dsc.actual) == 0 && vacants == gH && len(dsc.priorities) > 0) ==> result
 //@   loop 0
 //@     invariant [*] picked == msum(dsc.tactic)
+//@     invariant [C06] picked + msumR(dsc.actual, pset(dsc.priorities, $i)) == msumR(dsc.strategic, pset(dsc.priorities, $i))
 //@     invariant [*] no-wrap: picked <= msumR(dsc.strategic, pset(dsc.priorities, $i))
 //@     invariant [*] forall j :: $i <= j && j < len(dsc.priorities) ==> dsc.tactic[dsc.priorities[j]] == 0
 
@@ -184,6 +202,7 @@ package priority
 //@     invariant [* C15] strictlyDesc(dsc.uncrowded) && allIn(dsc.uncrowded, gPset) && len(dsc.uncrowded) <= $i
 //@     invariant [*] dsc.uncrowded.arr == 0 || (dsc.uncrowded.arr != dsc.priorities.arr && allocated(dsc.uncrowded.arr))
 //@     invariant [* C15] forall j :: ($i <= j && j < len(dsc.priorities) && len(dsc.uncrowded) > 0) ==> dsc.uncrowded[len(dsc.uncrowded) - 1] > dsc.priorities[j]
+//@   ensures [* C06] len(dsc.uncrowded) <= len(dsc.priorities)
 
 //@ func (*Discipline).updateUseful
 //@   requires [*] WF(dsc)
@@ -209,7 +228,9 @@ package priority
 
 //@ func (*Discipline).isTacticFilled
 //@   requires [*] dsc != nil && dsc.tactic != nil
-//@   ensures [*] true
+//@   ensures [* C06] len(priorities) == 0 ==> result
+//@   loop 0
+//@     invariant [*] true
 
 //@ func (*Discipline).calcTacticBase
 //@   requires [*] WF(dsc)
@@ -221,9 +242,11 @@ package priority
 //@   ensures [C02 C07 C15] old(gDivErr) ==> gDivErr
 //@   ensures [*] dsc.uncrowded.arr == 0 || dsc.uncrowded.arr != dsc.priorities.arr
 //@   ensures [C02 C07 C15] result1 != nil ==> gDivErr
+//@   ensures [C06] len(dsc.priorities) == 0 ==> (result1 != nil || result0)
 
 //@ func (*Discipline).calcTactic
 //@   requires [*] WF(dsc)
+//@   ensures [C06] nothing-in-flight-means-proceed: old(gInfl) == 0 ==> (result1 != nil || result0)
 //@   ensures [*] WF(dsc)
 //@   modifies content(dsc.tactic), dsc.uncrowded, anyelems(dsc.uncrowded), gDivErr
 //@   ensures [* C01] (result1 == nil && result0) ==> RINV(dsc)
@@ -282,6 +305,8 @@ package priority
 //@   ensures [C02 C07 C15] fault-is-reported: (gDivErr && !old(gDivErr)) ==> result == ErrDividerBad
 //@   ensures [C02 C07 C15] error-only-on-fault: result != nil ==> gDivErr
 //@   ensures [C02 C07 C15] old(gDivErr) ==> gDivErr
+//@   ensures [C06] divider-sum-rule: msum(distribution) == old(msum(distribution)) + ite(len(priorities) > 0, dividend, 0)
+//@   ensures [C06] good-divider-no-error: result == nil
 
 //@ func (*Discipline).calcVacants
 //@   requires [*] WF(dsc)
@@ -300,6 +325,7 @@ package priority
 
 //@ func (*Discipline).getOneFeedback
 //@   requires [*] WF(dsc)
+//@   requires [C06] gInfl > 0
 //@   modifies content(dsc.actual), gInfl, gInflP, gClock, gStop
 //@   ensures [*] WF(dsc)
 //@   ensures [* C16] old(gStop) ==> gStop
